@@ -20,6 +20,28 @@ mod plan;
 #[path = "/repo/src/bin/copia/reconcile.rs"]
 mod reconcile;
 
+/// `meta.rs` pulls in the whole CLI (transfer, ssh); the two mtime helpers are exercised through a copy-free
+/// include of the real file in a private module tree that supplies the sibling modules it names.
+mod bin_meta {
+    pub(crate) use super::plan;
+    pub(crate) use super::reconcile;
+    pub mod transfer {
+        use std::path::{Path, PathBuf};
+        pub fn discover_local_files(root: &Path) -> Result<Vec<PathBuf>, Box<dyn std::error::Error>> {
+            let mut out = Vec::new();
+            for e in std::fs::read_dir(root)? {
+                let e = e?;
+                if e.file_type()?.is_file() {
+                    out.push(PathBuf::from(e.file_name()));
+                }
+            }
+            Ok(out)
+        }
+    }
+    #[path = "/repo/src/bin/copia/meta.rs"]
+    pub mod meta;
+}
+
 fn bytes_of(v: &Value) -> Vec<u8> {
     // either [b, b, ...] or {"runs": [[count, byte], ...]}
     if let Some(runs) = v.get("runs") {
@@ -295,6 +317,23 @@ fn run_case(case: &Value) -> Value {
         "reconcile" => {
             let r = reconcile::reconcile(&fpmap(&case["a"]), &fpmap(&case["b"]), &fpmap(&case["base"]), case["trust_base"].as_bool().unwrap());
             json!({"result": r.iter().map(|(p, a)| json!([p.to_string_lossy(), format!("{a:?}")])).collect::<Vec<_>>()})
+        }
+        "set_local_mtime_roundtrip" => {
+            // real file system: write a file, set its mtime through copia, read it back through copia
+            let secs = case["secs"].as_i64().unwrap();
+            let dir = std::env::temp_dir().join(format!("copia-verif-mtime-{}", std::process::id()));
+            let _ = std::fs::remove_dir_all(&dir);
+            std::fs::create_dir_all(&dir).unwrap();
+            let f = dir.join("f");
+            std::fs::write(&f, b"x").unwrap();
+            // start from a known, different mtime
+            let t0 = std::time::UNIX_EPOCH + std::time::Duration::from_secs(1_234_567);
+            std::fs::File::options().write(true).open(&f).unwrap().set_modified(t0).unwrap();
+            let r = bin_meta::meta::set_local_mtime(&f, secs);
+            let m = bin_meta::meta::discover_local_with_meta(&dir).unwrap();
+            let after = m.get(&PathBuf::from("f")).map(|x| x.mtime);
+            let _ = std::fs::remove_dir_all(&dir);
+            json!({"result": r.is_ok(), "mtime_after": after})
         }
         "header_decode" => {
             let b = bytes_of(&case["buf"]);
